@@ -10,5 +10,7 @@ import BacVerif.Props.C10
 #print axioms BacVerif.C10.dropped_absent
 #print axioms BacVerif.C10.queued_request_answered
 #print axioms BacVerif.C10.answered_after_garbage
+#print axioms BacVerif.C10.late_answer
+#print axioms BacVerif.C10.late_answer_dropped
 #print axioms BacVerif.C10.reject_table_agrees
 #print axioms BacVerif.C10.defaults_meet_hypotheses
